@@ -48,6 +48,11 @@ TStep ==
      \/ /\ e.op = "appendPiece" /\ AppendPiece(e.x, e.k) /\ Post(e)
      \/ /\ e.op = "appendChar" /\ AppendChar(e.x, e.c) /\ Post(e)
      \/ /\ e.op = "appendInt" /\ AppendInt(e.x, e.n) /\ Post(e)
+     \/ /\ e.op = "assignRepeat" /\ AssignRepeat(e.x, e.c, e.n) /\ Post(e)
+     \/ /\ e.op = "appendRepeat" /\ AppendRepeat(e.x, e.c, e.n) /\ Post(e)
+     \/ /\ e.op = "assignN" /\ AssignN(e.x, e.s, e.n) /\ Post(e)
+     \/ /\ e.op = "appendN" /\ AppendN(e.x, e.s, e.n) /\ Post(e)
+     \/ /\ e.op = "reserve" /\ Reserve(e.x, e.n) /\ Post(e)
      \/ /\ e.op = "trim" /\ Trim(e.x) /\ Post(e)
      \/ /\ e.op = "replaceme" /\ ReplaceMe(e.x, e.a, e.b) /\ Post(e)
      \/ /\ e.op = "resize" /\ Resize(e.x, e.n, e.c) /\ Post(e)
